@@ -13,6 +13,7 @@
 //
 //	func main() { dvh.MaybeChild(); ... }                       // first statement of a driver
 //	p, err := dvh.Start(dvh.Opts{Dir: d})                       // new process on directory d (created if absent)
+//	p, err := dvh.Start(dvh.Opts{Dir: d, ReadOnly: true})        // a read-only server on d (Config.ReadOnly + server read-only flag)
 //	p, err := dvh.Start(dvh.Opts{Dir: d, Crash: "meta:7:after"}) // dies (exit 77) right after its 7th metadata Put/Delete
 //	                                                            // classes: meta | data; modes: before | after
 //	                                                            // class txn: the N-th read-write transaction of the underlying badger
@@ -21,6 +22,9 @@
 //	status, body, alive := p.Get(url) / p.Post(url, body) / p.PostJSON(url, v) / p.HTTP(method, url, body)
 //	meta, data, trace := p.Writes()                             // store writes so far; trace of metadata keys ("P4:1")
 //	r, alive := p.Call("delrepo"|"deldata"|"iid"|"mutid"|"rawcount", uuid, name) // exported package functions
+//	r, alive := p.Call("receive", root, "uuid1,uuid2,...")       // datastore.VerifReceiveRepo: the repo is re-registered as a pushed repo is
+//	                                                            // (new repo / instance / version ids, the latter in the given uuid order);
+//	                                                            // its versions resolve again after the next start
 //	p.Plan("data:+2:after")                                     // die right after the 2nd data write from now on
 //	p.Quit()   clean shutdown        p.Kill()   SIGKILL        p.Dead / p.Exit / p.Stderr afterwards
 //	p.Init     the child initialised a fresh metadata store     p.Meta0   metadata writes during start-up
@@ -67,7 +71,7 @@ const Marker = "dvh-child"
 
 // Req is one line on the child's stdin.
 type Req struct {
-	Op   string `json:"op"`             // "http" | "writes" | "quit" | "sleep" | "delrepo" | "deldata" | "iid" | "mutid" | "rawcount" | "plan" | "rename"
+	Op   string `json:"op"`             // "http" | "writes" | "quit" | "sleep" | "delrepo" | "deldata" | "iid" | "mutid" | "rawcount" | "plan" | "rename" | "receive"
 	Name string `json:"name,omitempty"` // data instance name (deldata, iid, mutid); U then holds a uuid
 	M    string `json:"m,omitempty"`    // method
 	U    string `json:"u,omitempty"`    // url
@@ -112,6 +116,7 @@ func Main(args []string) {
 	verbose := fs.Bool("v", false, "keep DVID's log output on stderr")
 	mutStart := fs.Uint64("mutstart", 0, "datastore.Config.MutationStart")
 	instStart := fs.Uint64("inststart", 0, "datastore.Config.InstanceStart")
+	readOnly := fs.Bool("readonly", false, "start in read-only mode (datastore.Config.ReadOnly, server.SetReadOnly)")
 	fs.Parse(args)
 	if *dir == "" {
 		fmt.Fprintln(os.Stderr, "dvh: need -dir")
@@ -157,6 +162,9 @@ func Main(args []string) {
 	for _, t := range datastore.Compiled {
 		datatypes[t.GetTypeName()] = struct{}{}
 	}
+	if *readOnly {
+		server.SetReadOnly(true)
+	}
 	var initMetadata bool
 	var startErr error
 	func() {
@@ -171,7 +179,7 @@ func Main(args []string) {
 			startErr = fmt.Errorf("storage.Initialize: %v", err)
 			return
 		}
-		if err = datastore.Initialize(initMetadata, datastore.Config{MutationStart: *mutStart, InstanceStart: dvid.InstanceID(*instStart)}); err != nil {
+		if err = datastore.Initialize(initMetadata, datastore.Config{MutationStart: *mutStart, InstanceStart: dvid.InstanceID(*instStart), ReadOnly: *readOnly}); err != nil {
 			startErr = fmt.Errorf("datastore.Initialize: %v", err)
 		}
 	}()
@@ -207,6 +215,15 @@ func Main(args []string) {
 					say(errResp(datastore.DeleteDataByName(dvid.UUID(rq.U), dvid.InstanceName(rq.Name), "")))
 				case "rename": // RPC "repo <uuid> rename <old> <new>": U uuid, Name old, M new
 					say(errResp(datastore.RenameData(dvid.UUID(rq.U), dvid.InstanceName(rq.Name), dvid.InstanceName(rq.M), "")))
+				case "receive": // the repo with root U goes through the receiving end of a push (verif hook of /repo);
+					// Name = comma-separated uuids: the order in which the new local version ids are handed out ("" = the code's own)
+					var order []dvid.UUID
+					for _, u := range strings.Split(rq.Name, ",") {
+						if u != "" {
+							order = append(order, dvid.UUID(u))
+						}
+					}
+					say(errResp(datastore.VerifReceiveRepo(dvid.UUID(rq.U), "", order)))
 				case "iid":
 					d, err := datastore.GetDataByUUIDName(dvid.UUID(rq.U), dvid.InstanceName(rq.Name))
 					if err != nil {
